@@ -195,6 +195,16 @@ fn on_fatal_signal(sig: i32, pc: usize, addr: usize) -> ! {
         "msg" => format!("unrecovered memory fault (signal {sig}) at pc {pc:#x}, address {addr:#x}: the runtime's trap handler found no coroutine to fail")})
 }
 
+/// abort() (a panic that cannot unwind, a failed allocation, an explicit abort): report the crash
+/// ourselves so that the run's counters and the last panic message travel with it.
+extern "C" fn on_sigabrt(_: libc::c_int) {
+    unsafe {
+        _ = libc::signal(libc::SIGABRT, libc::SIG_DFL);
+    }
+    finish(obj! {"outcome" => "violation", "class" => "crash",
+        "msg" => format!("process killed by signal 6 (SIGABRT); last panic: {}", last_panic())})
+}
+
 pub fn sim_config_from(plan: &J, sched_seed: u64, record: bool, replay: Option<Vec<(u64, u32)>>) -> Config {
     let s = plan.get("sim").cloned().unwrap_or(J::Obj(vec![]));
     let strategy = match s.gs("strategy") {
@@ -278,6 +288,9 @@ pub fn run(idx: u64, plan: &J, sched_seed: u64, record: bool, replay: Option<Vec
     }
     sim::set_abort_handler(on_abort);
     sim::set_fatal_signal_hook(on_fatal_signal);
+    unsafe {
+        _ = libc::signal(libc::SIGABRT, on_sigabrt as extern "C" fn(libc::c_int) as libc::sighandler_t);
+    }
     sim::start(cfg);
     let r = std::panic::catch_unwind(|| body(plan));
     if let Err(e) = r {
